@@ -139,7 +139,7 @@ func runOne(t *testing.T, p *simkit.Prop, c *simkit.Case, idx int, keep bool) *s
 	run := simkit.NewRun(c, keep)
 	maxWall := p.MaxWall
 	if maxWall == 0 {
-		maxWall = 30 * time.Second
+		maxWall = 90 * time.Second
 	}
 	wd := time.AfterFunc(maxWall, func() {
 		// Outside the bubble: real time. A run that does not finish is either a
